@@ -135,6 +135,82 @@ def spm_call_model(I, selfv, lp, iv):
     return PyDict([(S("source"), SStr(I.fresh("Str", "source_dir"))), (S("href"), SStr(href))], True), kind
 
 
+
+PURE_CALLS = {"urllib.parse.quote", "posixpath.join", "str"}
+
+
+def independent_iteration_findings(fn):
+    """Side conditions of the independent-iteration rule for every loop of `fn` (the real AST):
+         for T in L: BODY   ==   L[i] := effect(BODY)(L[i]) for every i, in order, nothing else changed
+    when (1) T is a plain name and L a plain local name that BODY never mentions, (2) BODY is a straight line of assignments and
+    expression statements (no break / continue / return / raise / nested loop / branch), (3) every name BODY assigns is assigned before it is
+    read in the same iteration (no value flows from one iteration to the next), (4) the only object BODY stores into or calls a method on is T,
+    and every other call is to a function of PURE_CALLS.  Returns {loop ordinal: [what fails]}; an empty list means the rule applies, and the
+    per-element obligations of the harness (one generic element, contents symbolic) then hold for every element of a list of any length."""
+    import ast
+    from ..loops import static_ordinals
+    ords = static_ordinals(fn)[0]
+    out = {}
+    for node in ast.walk(fn):
+        if isinstance(node, ast.While):
+            out[ords[id(node)]] = ["while loop"]
+        if not isinstance(node, ast.For):
+            continue
+        bad = []
+        if not isinstance(node.target, ast.Name) or not isinstance(node.iter, ast.Name):
+            out[ords[id(node)]] = ["target / iterable is not a plain name"]
+            continue
+        T, L = node.target.id, node.iter.id
+        if node.orelse:
+            bad.append("for-else")
+        assigned = set()
+        for st in node.body:
+            if not isinstance(st, (ast.Assign, ast.AnnAssign, ast.Expr)):
+                bad.append(f"line {st.lineno}: {type(st).__name__} statement in the body")
+                continue
+            for n in ast.walk(st):
+                if isinstance(n, (ast.Yield, ast.YieldFrom, ast.Await, ast.NamedExpr, ast.Lambda, ast.ListComp, ast.GeneratorExp, ast.DictComp, ast.SetComp, ast.Starred)):
+                    bad.append(f"line {st.lineno}: {type(n).__name__}")
+                if isinstance(n, ast.Name) and n.id == L:
+                    bad.append(f"line {st.lineno}: the body mentions the list `{L}`")
+                if isinstance(n, ast.Name) and isinstance(n.ctx, ast.Load) and n.id != T and n.id in stored_in(node.body) and n.id not in assigned:
+                    bad.append(f"line {st.lineno}: `{n.id}` is read before it is assigned in the iteration")
+                if isinstance(n, (ast.Subscript, ast.Attribute)) and isinstance(n.ctx, (ast.Store, ast.Del)):
+                    if not (isinstance(n.value, ast.Name) and n.value.id == T):
+                        bad.append(f"line {st.lineno}: store into something other than `{T}`")
+                if isinstance(n, ast.Call):
+                    q = dotted(n.func)
+                    if q in PURE_CALLS:
+                        continue
+                    if isinstance(n.func, ast.Attribute) and isinstance(n.func.value, ast.Name) and n.func.value.id == T:
+                        continue
+                    bad.append(f"line {st.lineno}: call of `{q or type(n.func).__name__}`")
+            for n in ast.walk(st):
+                if isinstance(n, ast.Name) and isinstance(n.ctx, ast.Store):
+                    if n.id == T:
+                        bad.append(f"line {st.lineno}: the loop variable is rebound")
+                    assigned.add(n.id)
+        out[ords[id(node)]] = bad
+    return out
+
+
+def stored_in(stmts):
+    import ast
+    return {n.id for st in stmts for n in ast.walk(st) if isinstance(n, ast.Name) and isinstance(n.ctx, ast.Store)}
+
+
+def dotted(e):
+    import ast
+    parts = []
+    while isinstance(e, ast.Attribute):
+        parts.append(e.attr)
+        e = e.value
+    if isinstance(e, ast.Name):
+        parts.append(e.id)
+        return ".".join(reversed(parts))
+    return None
+
+
 def as_dict_harness(I, c):
     from ..symexec import PyDict, PySeq, SStr, SBool, SNone, SAdt, Obligation, Unsupported
     qual = c.name
@@ -150,6 +226,13 @@ def as_dict_harness(I, c):
             d.append((S("rel"), S("stylesheet")))
         return PyDict(d, False)
 
+    # every loop of the real function under the independent-iteration rule: the element-wise obligations below, proved on lists of
+    # length <= 2 with symbolic contents, then hold for lists of every length
+    fn_node = I.src.find(qual)
+    for k, bad in sorted(independent_iteration_findings(fn_node).items()):
+        obs.append(Obligation(f"G:{short}:loop{k}.independent-iterations", [], z3.BoolVal(not bad), f"{qual} loop {k}", "G",
+                              "iterations are independent (straight-line body, stores only into the loop variable, no value carried between iterations, "
+                              "the list itself untouched): " + ("holds" if not bad else "; ".join(bad[:4]))))
     for kind in ("url", "dir", "none"):
         for ns, nc in ((0, 0), (1, 1), (2, 1), (1, 2)):
             if kind == "none" and (ns, nc) not in ((1, 1), (2, 1)):
